@@ -212,6 +212,7 @@ def parseFOp (s : String) : Option FOp :=
   | "T", some i => some (.setType i (unhex v))
   | "R", some i => (parseInt? v).map (.setRetry i)
   | "K", some i => some (.clone i)
+  | "U", some i => some (.unmarshal i (unhex v))
   | "P", some i => (v.toNat?.filter (· < 4)).map (.put i)
   | _, _ => none
 
